@@ -1,20 +1,22 @@
 """C10 - channels and spawned threads deliver every value exactly once, in order.
 
 Tie of coq/model/Chan.v + Spawn.v to /repo (every run):
-  A  single-goroutine histories (send / receive / one range step / close on one channel, capacity 0..8,
-     including send-on-closed, close-of-closed, receive-after-close and operations that block for ever):
+  A  single-goroutine histories (send / receive / one range step / close / keys(ch) / map(ch) on one channel, capacity
+     0..8, including send-on-closed, close-of-closed, receive-after-close and operations that block for ever):
      event by event equal to the extracted model's seq_step;
-  B  producer/consumer topologies (1..4 senders x 1..4 receivers, all spawn forms, receive forms and range forms,
-     GOMAXPROCS in {1,2,16}, injected yields): the per-receiver logs collected through host builtins are judged by
-     an independent oracle (exactly once, per-sender order, keys) and by the extracted acceptor `accept`
-     (proved sound: C10_accept_sound); topologies with several ranging receivers must still satisfy `weak_accept`
-     (C10_all_schedules_count_and_origin);
-  C  tiny topologies run many times: every observed outcome must be one of the outcomes the model reaches when
-     ALL its schedules are enumerated (driver command `reach`);
+  B  producer/consumer topologies (1..4 senders x 1..4 receivers, any number of them ranging, all spawn forms, receive
+     forms and range forms, GOMAXPROCS in {1,2,16}, injected yields): the per-receiver logs collected through host
+     builtins are judged by an independent oracle (exactly once, per-sender order, keys) and by the extracted acceptor
+     `accept` (proved sound: C10_accept_sound);
+  C  tiny topologies run many times: every observed outcome (keys included) must be one of the outcomes the model
+     reaches when ALL its schedules are enumerated (driver command `reach`);
   D  spawn scenarios (go / spawn() / fn.spawn() / builtin.spawn() / a host calling object.Spawn from Go, results,
      raised errors, Go panics, several waiters, variables reassigned and the passed slice overwritten after the spawn
      site) against the extracted `predict`;
-  E  the refutation witness C10_refuted_range_multi on the real code: several goroutines ranging over one channel.
+  E  2..4 goroutines ranging over one channel, 20000 messages (the class repaired by 0f2710a: regression stage);
+  F  a sample of B, D and E in a -race build;
+  G  the Next/Entry protocol that keys(ch) / map(ch) still use: one consumer next to receive() users (guarded theorem),
+     and several consumers at once (C10_iterator_protocol_refuted on the real code; must satisfy `weak_accept`).
 """
 import json
 import os
@@ -28,14 +30,15 @@ from lib import common as C
 PROP = "C10"
 LEVEL = "proof"
 M = 1000000          # value = sender * M + sequence number
-KNOWN_CLASS = "several-ranging-receivers"
+KNOWN_CLASS = "iterator-protocol-multi-consumer"
+KNOWN_ID = "iterator-protocol-multi-consumer"
 
 
 # ------------------------------------------------------------------ known findings (own file first)
 
 def load_known():
     out = []
-    for name in ("known_findings.b.jsonl", "known_findings.jsonl"):
+    for name in ("known_findings.jsonl",):
         p = os.path.join(C.VERIF, name)
         if not os.path.exists(p):
             continue
@@ -61,7 +64,7 @@ def gen_seq_case(rng, malformed):
     nextv = 1 + rng.below(50)
     for _ in range(n):
         if malformed:
-            kind = rng.choice("ssrric")
+            kind = rng.choice("ssrrickm")
         else:
             # mostly valid: avoid blocking and errors, but keep a little of both
             choices = []
@@ -71,8 +74,10 @@ def gen_seq_case(rng, malformed):
                 choices += ["r"] * 2 + ["i"] * 2
             if not closed and rng.chance(1, 6):
                 choices += ["c"]
+            if closed and rng.chance(1, 3):
+                choices += ["k", "m"]
             if not choices or rng.chance(1, 25):
-                choices = list("ssrric")
+                choices = list("ssrrickm")
             kind = rng.choice(choices)
         if kind == "s":
             ops.append(("s", nextv, rng.choice(["op", "method"])))
@@ -85,6 +90,9 @@ def gen_seq_case(rng, malformed):
         elif kind == "i":
             ops.append(("i", None, rng.choice(RANGE_FORMS)))
             q = max(0, q - 1)
+        elif kind in ("k", "m"):
+            ops.append((kind, None, "builtin"))
+            q = 0
         else:
             ops.append(("c", None, rng.choice(["builtin", "method"])))
             closed = True
@@ -103,6 +111,10 @@ def seq_script(cap, ops):
         elif kind == "c":
             stmt = "close(ch)" if form == "builtin" else "ch.close()"
             L.append('rec("h", try(func() { %s; return "closed" }, func(e) { return string(e) }))' % stmt)
+        elif kind == "k":
+            L.append('rec2("h", "keys", keys(ch))')
+        elif kind == "m":
+            L.append('rec2("h", "map", map(ch))')
         else:
             head = {"kv": "for k, v := range ch", "k": "for k := range ch", "v": "for _, v := range ch",
                     "in": "for v in ch"}[form]
@@ -113,11 +125,11 @@ def seq_script(cap, ops):
     return "\n".join(L)
 
 
-def seq_model_line(cap, ops, fused):
+def seq_model_line(cap, ops):
     toks = []
     for kind, v, _ in ops:
         toks.append("s%d" % v if kind == "s" else kind)
-    return "seq\t%d\t%d\t%s" % (fused, cap, ",".join(toks))
+    return "seq\t%d\t%s" % (cap, ",".join(toks))
 
 
 def foriter_variant():
@@ -180,6 +192,11 @@ def seq_observed(resp, timeout_ms):
                 out.append("other(" + t + ")")
         elif isinstance(x, list) and len(x) == 1:
             out.append("nil" if x[0] is None else "recv:%s" % x[0])
+        elif isinstance(x, list) and len(x) == 2 and x[0] == "s:keys":
+            out.append("keys:" + "|".join(str(k) for k in (x[1] or [])))
+        elif isinstance(x, list) and len(x) == 2 and x[0] == "s:map":
+            m_ = x[1] if isinstance(x[1], dict) else {}
+            out.append("map:" + "|".join("%s=%s" % (k, m_[k]) for k in sorted(m_, key=lambda z: int(z) if z.lstrip("-").isdigit() else 0)))
         elif isinstance(x, list) and len(x) == 2:
             k = "_" if x[0] == "s:_" else x[0]
             v = "_" if x[1] == "s:_" else x[1]
@@ -190,9 +207,10 @@ def seq_observed(resp, timeout_ms):
         out.append("error(" + resp["error"] + ")")
     if timed_out:
         # The evaluation ran into its deadline, so one operation blocked.  Nothing blocks on a closed channel, hence the
-        # channel was open and an "end" can only be a range loop left through the ctx.Done() branch of Chan.Next.
+        # channel was open and an "end" (or the return of keys()/map()) can only be an iteration left through the ctx.Done()
+        # branch of Chan.Next / Chan.NextEntry.
         for k, g in enumerate(out):
-            if g in ("BLOCK", "end"):
+            if g in ("BLOCK", "end") or g.startswith(("keys:", "map:")):
                 return out[:k] + ["BLOCK"]
         out.append("BLOCK")
     return out
@@ -216,6 +234,7 @@ def topo_script(cfg):
     L.append("func r_range_kv(j) { for k, v := range ch { rec2(j, k, v) } }")
     L.append("func r_range_v(j) { for _, v := range ch { rec(j, v) } }")
     L.append("func r_range_in(j) { for v in ch { rec(j, v) } }")
+    L.append("func r_map(j) { m := map(ch); for _, v := range m { rec(j, v) } }")
     L.append("ts := []")
     for j, rk in enumerate(cfg["rkinds"]):
         L.append("ts.append(spawn(r_%s, %d))" % (rk, j))
@@ -239,6 +258,10 @@ def n_iter(cfg):
     return sum(1 for k in cfg["rkinds"] if k.startswith("range"))
 
 
+def n_proto(cfg):
+    return sum(1 for k in cfg["rkinds"] if k == "map")
+
+
 def gen_topo(rng, tier, big=False):
     ns, nr = 1 + rng.below(4), 1 + rng.below(4)
     cap = rng.below(9)
@@ -247,10 +270,8 @@ def gen_topo(rng, tier, big=False):
     else:
         top = rng.choice([5, 40, 300, 2000])
         counts = [rng.below(top + 1) for _ in range(ns)]
-    # at most one ranging receiver in the guarded stream
-    rkinds = [rng.choice(["op", "method"]) for _ in range(nr)]
-    if rng.chance(2, 3):
-        rkinds[rng.below(nr)] = rng.choice(["range_kv", "range_v", "range_in"])
+    # any number of receiving and of ranging goroutines (C10_exactly_once)
+    rkinds = [rng.choice(RECV_KINDS) for _ in range(nr)]
     return {"cap": cap, "counts": counts, "rkinds": rkinds,
             "sform": [rng.choice(SPAWN_FORMS) for _ in range(ns)],
             "send_form": [rng.choice(["op", "method"]) for _ in range(ns)],
@@ -290,7 +311,7 @@ def topo_oracle(cfg, resp):
                 return "receiver %d was handed a non-value %r" % (j, v), {}
             got[v] = got.get(v, 0) + 1
             i, k = divmod(v, M)
-            if i in lastseq and k <= lastseq[i] and order_why is None:
+            if i in lastseq and k <= lastseq[i] and order_why is None and cfg["rkinds"][j] != "map":
                 order_why = "receiver %d got value %d of sender %d after value %d (order / repetition)" % (j, k, i, lastseq[i])
             lastseq[i] = max(k, lastseq.get(i, -1))
     dups = sorted(v for v, c in got.items() if c > 1)
@@ -308,11 +329,18 @@ def topo_oracle(cfg, resp):
             dups[:5], lost[:5], sum(cfg["counts"]), sum(got.values())), facts
     if order_why:
         return order_why, facts
-    if n_iter(cfg) == 1:
-        for j, ks in enumerate(keys):
-            if ks is not None and ks != list(range(len(ks))):
-                bad = next(x for x in range(len(ks)) if ks[x] != x)
-                return "range keys of receiver %d are not 0,1,2,...: position %d has key %r" % (j, bad, ks[bad]), facts
+    allk = []
+    for j, ks in enumerate(keys):
+        if ks is None:
+            continue
+        if any(not isinstance(x, int) for x in ks) or any(ks[x] >= ks[x + 1] for x in range(len(ks) - 1)):
+            return "range keys of receiver %d are not increasing: %r" % (j, ks[:8]), facts
+        allk += ks
+    if len(set(allk)) != len(allk):
+        return "a range key was handed out twice", facts
+    if allk and all(k == "range_kv" for k in cfg["rkinds"] if k.startswith("range")) and not any(k == "map" for k in cfg["rkinds"]) \
+            and sorted(allk) != list(range(len(allk))):
+        return "range keys are not 0..%d: %r" % (len(allk) - 1, sorted(allk)[:8]), facts
     return None, facts
 
 
@@ -328,7 +356,7 @@ def reach_outcome(cfg, resp):
     for j, rk in enumerate(cfg["rkinds"]):
         lg = resp["logs"].get(str(j), [])
         if rk == "range_kv":
-            parts.append(",".join("%s:%s" % (x[0] if n_iter(cfg) <= 1 else "_", x[1] % M + 100 * (x[1] // M)) for x in lg))
+            parts.append(",".join("%s:%s" % (x[0], x[1] % M + 100 * (x[1] // M)) for x in lg))
         else:
             parts.append(",".join(str(v % M + 100 * (v // M)) for v in lg))
     return ";".join(parts)
@@ -464,43 +492,6 @@ def spawn_observed(resp):
 
 
 
-# ------------------------------------------------------------------ deterministic replay of the Coq witness (overlay hook)
-
-WITNESS_SRC = """ch := chan(2)
-ch <- 10
-ch <- 11
-func r(j) { for _, v := range ch { rec(j, v) } }
-t1 := spawn(r, 1)
-t2 := spawn(r, 2)
-await(2)
-close(ch)
-t1.wait()
-t2.wait()
-"done"
-"""
-
-
-def build_gap_binary():
-    """c10obs with a build-time overlay that inserts one call between iter.Next and iter.Entry in ForIter (no file of
-    the repository is edited).  Returns (exe, why_not)."""
-    d = os.path.join(C.BUILD, "overlay_c10")
-    os.makedirs(d, exist_ok=True)
-    try:
-        src = open(os.path.join(C.REPO, "vm", "vm.go")).read()
-    except OSError as e:
-        return None, str(e)
-    anchor = "obj, _ := iter.Entry()"
-    if src.count(anchor) != 1:
-        return None, "anchor %r found %d times in vm/vm.go" % (anchor, src.count(anchor))
-    C.write_if_changed(os.path.join(d, "vm_gap.go"), src.replace(anchor, "verifIterGap()\n\t\t\t\t" + anchor))
-    C.write_if_changed(os.path.join(d, "vm_gap_hook.go"), open(os.path.join(C.VERIF, "hooks", "vm_c10_gap.go.txt")).read())
-    ov = {"Replace": {os.path.join(C.REPO, "vm", "vm.go"): os.path.join(d, "vm_gap.go"),
-                      os.path.join(C.REPO, "vm", "zz_c10_gap_hook.go"): os.path.join(d, "vm_gap_hook.go")}}
-    p = os.path.join(d, "overlay.json")
-    C.write_if_changed(p, json.dumps(ov, indent=1))
-    exe, err = C.go_build("c10obs", out=os.path.join(C.BIN, "c10obs-gap"), tags="verif,c10gap", overlay=p)
-    return exe, err[-1500:]
-
 # ------------------------------------------------------------------ running the two sides
 
 def run_impl(exe, reqs, timeout):
@@ -609,18 +600,14 @@ def _body(res, tier, obs, model, proved):
     stats = {}
     st = {"evals": 0}
     fused, vwhy = foriter_variant()
-    res.coverage["foriter_variant"] = {"fused": fused, "why": vwhy}
-    if fused is None:
-        res.violation({"property": PROP, "kind": "correspondence-broken", "stage": "source anchor of ForIter",
-                       "first_difference": vwhy, "search": "not started: the model variant to compare with is unknown"},
-                      nofail=True, tag="corr")
-        return
-    if fused:
-        # the repaired ForIter: the full statement is proved (C10_full_after_repair); nothing is a known finding
-        known, known_ids = [], []
+    res.coverage["foriter_variant"] = {"one_step": fused, "why": vwhy}
+    if not fused:
+        # the model describes ForIter taking value and entry from the channel in one call (Chan.NextEntry)
+        corr.append({"stage": "source anchor of ForIter", "impl": vwhy,
+                     "model": "model/Chan.v: a range step is Take; Fin (Chan.NextEntry); the Next/Entry protocol is reached only by keys()/map()"})
 
     def fresh_violation():
-        return any(not (v.get("klass") == KNOWN_CLASS and "range-multi-receiver" in known_ids) for v in oracle_viol)
+        return any(not (v.get("klass") == KNOWN_CLASS and KNOWN_ID in known_ids) for v in oracle_viol)
 
     def finish():
         _finish(res, st["evals"], nontrivial, samples, stats, corr, oracle_viol, known, known_ids, proved)
@@ -639,7 +626,7 @@ def _body(res, tier, obs, model, proved):
         seq_cases.append(gen_seq_case(rng, False))
     for _ in range(nmal):
         seq_cases.append(gen_seq_case(rng, True))
-    mlines = [seq_model_line(c, o, fused) for c, o in seq_cases]
+    mlines = [seq_model_line(c, o) for c, o in seq_cases]
     mouts = run_model(model, mlines)
     # blocking cases cost a timeout each: keep a bounded number of them
     max_block = 64 if quick else 600
@@ -726,7 +713,7 @@ def _body(res, tier, obs, model, proved):
         why, facts = topo_oracle(cfg, r)
         if why:
             oracle_viol.append(dict(case, why=why, facts=facts, src=topo_script(cfg),
-                                    klass=KNOWN_CLASS if n_iter(cfg) > 1 else None))
+                                    klass=None))
         else:
             alines.append(accept_line(cfg, r))
             aidx.append(k)
@@ -764,7 +751,7 @@ def _body(res, tier, obs, model, proved):
     for cfg in tiny:
         progs = ";".join(",".join(str(100 * i + k) for k in range(n)) for i, n in enumerate(cfg["counts"]))
         kinds = "".join("i" if k == "range_kv" else "r" for k in cfg["rkinds"])
-        rlines.append("reach\t%d\t%d\t%s\t%s" % (fused, cfg["cap"], progs, kinds))
+        rlines.append("reach\t%d\t%s\t%s" % (cfg["cap"], progs, kinds))
     routs = run_model(model, rlines)
     reqs = []
     for k, cfg in enumerate(tiny):
@@ -797,7 +784,7 @@ def _body(res, tier, obs, model, proved):
                 why, facts = topo_oracle(cfg, r)
                 if why:
                     oracle_viol.append({"stage": "C-reach", "config": cfg, "why": why, "src": topo_script(cfg),
-                                        "klass": KNOWN_CLASS if n_iter(cfg) > 1 else None})
+                                        "klass": None})
                 else:
                     corr.append({"stage": "C-reach", "config": cfg, "impl": o,
                                  "model": "not among the %d outcomes of all model schedules" % len(allowed)})
@@ -845,45 +832,8 @@ def _body(res, tier, obs, model, proved):
 
     if fresh_violation():
         return finish()
-    C.log("C10/E: witness")
-    # ---------------- E0: the Coq witness schedule itself, forced with the overlay hook
-    #   [Send 0; Send 0; Next 1; Next 2; Store/Count 1; Store/Count 2; Entry 1; Entry 2]: both Entry steps read the
-    #   value stored last: C10_refuted_range_multi says delivered = [(1, 11); (2, 11)] and 10 is lost
-    det = {"attempted": False}
-    if not fused:
-        gap_exe, gwhy = build_gap_binary()
-        if gap_exe:
-            det = {"attempted": True, "runs": 0, "reproduced": 0, "outcomes": []}
-            for k in range(3):
-                rc_, r_, e_ = run_impl(gap_exe, [{"id": "W", "src": WITNESS_SRC, "procs": 16, "yield": 0, "timeout_ms": 8000,
-                                                  "gap": 2}], 60)
-                r = r_.get("W")
-                st["evals"] += 1
-                if not r or r.get("error") or not r.get("gap_hook"):
-                    det["outcomes"].append("run failed: %r" % (r and r.get("error"),))
-                    continue
-                det["runs"] += 1
-                a, b = r["logs"].get("1", []), r["logs"].get("2", [])
-                det["outcomes"].append([a, b])
-                if a == b and a in ([10], [11]):
-                    det["reproduced"] += 1
-                    oracle_viol.append({"stage": "E0-witness-schedule", "config": {"counts": [2], "rkinds": ["range_v", "range_v"], "cap": 2},
-                                        "why": "forced schedule Next 1; Next 2; Entry 1; Entry 2: both ranging goroutines were handed %d, %d was "
-                                               "never delivered (Coq: C10_refuted_range_multi)" % (a[0], 21 - a[0]),
-                                        "src": WITNESS_SRC, "klass": KNOWN_CLASS})
-                    nontrivial.add(("E0", tuple(a)))
-                elif sorted(a + b) != [10, 11]:
-                    oracle_viol.append({"stage": "E0-witness-schedule", "config": {"counts": [2], "rkinds": ["range_v", "range_v"], "cap": 2},
-                                        "why": "forced witness schedule gave %r / %r" % (a, b), "src": WITNESS_SRC, "klass": None})
-            if det["runs"] and not det["reproduced"]:
-                corr.append({"stage": "E0-witness-schedule", "impl": det["outcomes"],
-                             "model": "the two-step model delivers the same value to both receivers under this schedule"})
-        else:
-            det = {"attempted": False, "why": gwhy}
-            res.notes.append("deterministic witness replay skipped: " + str(gwhy)[:300])
-    stats["E0_witness_schedule"] = det
-
-    # ---------------- E: the refutation witness on the real code
+    C.log("C10/E: several goroutines ranging over one channel")
+    # ---------------- E: several goroutines ranging over one channel (regression stage for fix 0f2710a)
     nwit = 4 if quick else 20
     wit_cfg = {"cap": 4, "counts": [20000], "rkinds": ["range_v", "range_v", "range_v"], "sform": ["go"],
                "send_form": ["op"], "yields": False, "procs": 16, "yield_seed": 0}
@@ -907,23 +857,79 @@ def _body(res, tier, obs, model, proved):
             reproduced += 1
             if first_wit is None:
                 first_wit = {"config": c, "why": why, "facts": facts}
-            oracle_viol.append({"stage": "E-witness", "config": c, "why": why, "facts": facts, "src": topo_script(c),
-                                "klass": KNOWN_CLASS})
+            oracle_viol.append({"stage": "E-multi-range", "config": c, "why": why, "facts": facts, "src": topo_script(c),
+                                "klass": None})
             nontrivial.add(("E", k, facts.get("dups"), facts.get("lost")))
         if not r.get("error"):
             wlines.append(accept_line(c, r))
             widx.append(k)
     wouts = run_model(model, wlines)
-    weak_ok = 0
+    acc_e = 0
     for k, o in zip(widx, wouts):
+        if o == "accept=1 weak=1":
+            acc_e += 1
+        elif not any(v.get("stage") == "E-multi-range" and v.get("config") is wit_cfgs[k] for v in oracle_viol):
+            corr.append({"stage": "E-acceptor", "config": wit_cfgs[k], "model": o,
+                         "impl": "oracle satisfied (exactly once, per-sender order) but the model's acceptor rejects"})
+    stats["E_multi_range"] = {"runs": len(wit_cfgs), "violations": reproduced, "accepted_by_model": acc_e, "first": first_wit}
+
+    if fresh_violation():
+        return finish()
+    C.log("C10/G: the Next/Entry protocol (keys / map builtins)")
+    # ---------------- G: keys(ch) / map(ch) consume a channel through Chan.Next + Chan.Entry
+    ng = 3 if quick else 16
+    g_cfgs = []
+    for _ in range(ng):
+        # one protocol consumer next to receive() users: C10_iterator_protocol_guarded applies
+        g_cfgs.append({"cap": rng.below(9), "counts": [rng.choice([200, 2000]) for _ in range(1 + rng.below(3))],
+                       "rkinds": ["map"] + [rng.choice(["op", "method"]) for _ in range(rng.below(3))],
+                       "sform": ["go"] * 3, "send_form": ["op", "method", "op"], "yields": False, "procs": rng.choice([2, 16]),
+                       "yield_seed": 0})
+    for _ in range(ng):
+        # several protocol consumers: C10_iterator_protocol_refuted
+        g_cfgs.append({"cap": rng.below(9), "counts": [20000], "rkinds": ["map"] * (2 + rng.below(3)), "sform": ["go"],
+                       "send_form": ["op"], "yields": False, "procs": 16, "yield_seed": 0})
+    for c in g_cfgs:
+        c["sform"] = c["sform"][:len(c["counts"])]
+        c["send_form"] = c["send_form"][:len(c["counts"])]
+    reqs = [{"id": "G%d" % k, "src": topo_script(c), "procs": c["procs"], "yield": 0, "timeout_ms": 60000}
+            for k, c in enumerate(g_cfgs)]
+    gres, fails = run_impl_sharded(obs, reqs, 4, 600)
+    glines, gidx = [], []
+    g_single_ok = g_multi_bad = 0
+    for k, c in enumerate(g_cfgs):
+        st["evals"] += 1
+        r = gres.get("G%d" % k)
+        if r is None:
+            corr.append({"stage": "G-protocol", "config": c, "impl": "no answer"})
+            continue
+        why, facts = topo_oracle(c, r)
+        multi = n_proto(c) > 1
+        if why:
+            oracle_viol.append({"stage": "G-protocol", "config": c, "why": why, "facts": facts, "src": topo_script(c),
+                                "klass": KNOWN_CLASS if multi and not why.startswith(("values never sent", "evaluation failed", "runaway", "unexpected")) else None})
+            if multi:
+                g_multi_bad += 1
+                nontrivial.add(("G", k, facts.get("dups"), facts.get("lost")))
+        elif not multi:
+            g_single_ok += 1
+        if not r.get("error"):
+            glines.append(accept_line(c, r))
+            gidx.append(k)
+    gouts = run_model(model, glines)
+    g_weak = 0
+    for k, o in zip(gidx, gouts):
         if o is not None and o.endswith("weak=1"):
-            weak_ok += 1
+            g_weak += 1
+        elif n_proto(g_cfgs[k]) > 1:
+            pass    # map() collapses entries whose (racy) keys coincide: the count is not comparable in this class
         else:
-            # the faithful model allows duplicates/losses but never invented values or a changed count
-            oracle_viol.append({"stage": "E-witness", "config": wit_cfgs[k], "why": "the count of delivered values differs "
-                                "from the count sent, or a value never sent was delivered (model: %s)" % o,
-                                "src": topo_script(wit_cfgs[k]), "klass": None})
-    stats["E_witness"] = {"runs": len(wit_cfgs), "reproduced": reproduced, "weak_accept_ok": weak_ok, "first": first_wit}
+            # the model allows duplicates/losses for overlapping protocol runs, never invented values or a changed count
+            oracle_viol.append({"stage": "G-protocol", "config": g_cfgs[k], "why": "the count of delivered values differs from the "
+                                "count sent, or a value never sent was delivered (model: %s)" % o,
+                                "src": topo_script(g_cfgs[k]), "klass": None})
+    stats["G_protocol"] = {"runs": len(g_cfgs), "single_consumer_ok": g_single_ok, "multi_consumer_with_dup_or_loss": g_multi_bad,
+                           "weak_accept_ok": g_weak}
 
     if fresh_violation():
         return finish()
@@ -969,7 +975,7 @@ def _body(res, tier, obs, model, proved):
         first = errtxt[errtxt.find("WARNING: DATA RACE"):][:1800] if nr else errtxt[-800:]
         v = {"stage": "F-race", "case_kind": kind, "config": cfg, "src": src,
              "why": "%d data race report(s) from the race detector (exit %d)" % (nr, rc), "report": first,
-             "klass": KNOWN_CLASS if kind == "multi" and "(*Chan).Next" in first or kind == "multi" and "(*Chan).Entry" in first else None}
+             "klass": None}
         if v["klass"]:
             race_known += 1
             nontrivial.add(("F", "multi"))
@@ -991,14 +997,15 @@ def _finish(res, evals, nontrivial, samples, stats, corr, oracle_viol, known, kn
                    "number, each costs a timeout), compared event by event with the extracted seq_step. B: topologies 1..4 "
                    "senders x 1..4 receivers, capacity 0..8, 0..2000 messages per sender (+ a few with 10^4), spawn forms go / "
                    "spawn() / fn.spawn(), receive forms <-c / c.receive() / three range forms, GOMAXPROCS 1/2/16, yields injected "
-                   "in the script and in the host builtins; at most one ranging receiver. C: topologies with <= 3 messages, run "
+                   "in the script and in the host builtins; any number of ranging receivers. C: topologies with <= 3 messages, run "
                    "repeatedly, observed outcome must be among the outcomes of ALL model schedules (enumerated). D: spawn "
                    "scenarios (5 spawn forms, return / raised error / Go panic, 1..3 waiters, reassignments and slice overwrites "
-                   "after the spawn site). E: 2..4 goroutines ranging over one channel, 20000 messages (refutation witness). "
-                   "F: a sample of B and D and one E topology in a -race build, one process per case. "
+                   "after the spawn site). E: 2..4 goroutines ranging over one channel, 20000 messages. "
+                   "F: a sample of B and D and one E topology in a -race build, one process per case. G: one or several goroutines "
+                   "consuming the channel with map(ch) (Next/Entry protocol). "
                    "Non-trivial = distinct A histories containing nil / end / error / blocking / range events, B topologies with "
                    "more than one message and more than one party, distinct observed C outcomes, D scenarios with a "
-                   "reassignment, overwrite, error or panic, E runs that show duplicates/losses.")
+                   "reassignment, overwrite, error or panic, G runs that show duplicates/losses.")
     cov["samples"] = samples
     cov["correspondence"] = dict(stats, differences=len(corr))
     cov["traces_validated_against_impl"] = stats.get("A_sequential", {}).get("agree", 0) + \
@@ -1008,8 +1015,9 @@ def _finish(res, evals, nontrivial, samples, stats, corr, oracle_viol, known, kn
     res.assumptions += [
         "Go's channel implementation meets the modelled semantics (FIFO queue of bounded capacity, closed flag, send on closed "
         "panics, receive on closed+empty yields the zero value); an unbuffered channel is modelled as capacity 1 (superset of schedules)",
-        "each Chan method and each of the two halves of ForIter (Next, Entry) is one atomic step; the Go memory model's treatment of the "
-        "unsynchronised lastReceived/rxCount accesses (torn interface values) is outside the model - the race detector tier covers it",
+        "steps: Chan.Send / Receive / Close are atomic; Chan.NextEntry is receive, then atomic count (Take; Fin); Chan.Next is receive, "
+        "store lastReceived, count (three steps) and Chan.Entry one step; the Go memory model's treatment of the unsynchronised "
+        "lastReceived accesses in the Next/Entry protocol (torn interface values) is outside the model",
         "real schedules cannot be replayed in Coq: the concurrent tie is acceptance of observed histories by the proved-sound acceptor, "
         "membership in the enumerated model outcomes for tiny topologies, and the direct oracle",
     ]
@@ -1017,15 +1025,15 @@ def _finish(res, evals, nontrivial, samples, stats, corr, oracle_viol, known, kn
     # ---------------- decide
     fresh, in_class = [], []
     for v in oracle_viol:
-        if v.get("klass") == KNOWN_CLASS and "range-multi-receiver" in known_ids:
+        if v.get("klass") == KNOWN_CLASS and KNOWN_ID in known_ids:
             in_class.append(v)
         else:
             fresh.append(v)
     if in_class:
         v = in_class[0]
-        res.known_finding("several goroutines ranging over one channel lose and duplicate values "
-                          "(%d runs in this class showed it; e.g. %d ranging receivers, %d messages: %s)" % (
-                              len(in_class), n_iter(v["config"]), sum(v["config"]["counts"]), v["why"][:150]))
+        res.known_finding("several goroutines consuming one channel with keys(ch) / map(ch) lose and duplicate values "
+                          "(%d runs in this class showed it; e.g. %d goroutines in map(ch), %d messages: %s)" % (
+                              len(in_class), n_proto(v["config"]), sum(v["config"]["counts"]), v["why"][:150]))
     for v in fresh[:10]:
         v.update({"property": PROP, "kind": "oracle-violation"})
         res.violation(v)
@@ -1056,6 +1064,8 @@ def seq_oracle(cap, ops, got):
                 return "send blocked although the channel had room or was closed"
             if kind in ("r", "i") and (q or closed):
                 return "receive blocked although a value was queued or the channel was closed"
+            if kind in ("k", "m") and closed:
+                return "keys()/map() blocked on a closed channel"
             if kind == "c":
                 return "close blocked"
             return None
@@ -1074,6 +1084,15 @@ def seq_oracle(cap, ops, got):
                     return "receive yielded nil although the channel was %s" % ("not drained" if q else "open")
             elif not q or g != "recv:%d" % q.pop(0):
                 return "receive yielded %s, expected the oldest queued value" % g
+        elif kind in ("k", "m"):
+            if not closed:
+                return "keys()/map() returned although the channel is open"
+            want = ("keys:" + "|".join(str(nkeys + d) for d in range(len(q)))) if kind == "k" else \
+                   ("map:" + "|".join("%d=%d" % (nkeys + d, v_) for d, v_ in enumerate(q)))
+            if g != want:
+                return "%s gave %s, expected %s" % ("keys(ch)" if kind == "k" else "map(ch)", g, want)
+            nkeys += len(q)
+            q = []
         elif kind == "i":
             if g == "end":
                 if q or not closed:
